@@ -36,6 +36,7 @@ type verifier struct {
 
 	opaqueStructs map[string]bool
 	boxTags       map[string][]string
+	knownClause   map[string]bool
 	curPkg        string // package path of the function being verified (affects Cursor mapping)
 }
 
@@ -58,6 +59,13 @@ func newVerifier(repo, specDir string) (*verifier, error) {
 			"reflect.StructField":            true,
 			"golang.org/x/text/language.Tag": true,
 		},
+	}
+	v.knownClause = map[string]bool{}
+	var kf KnownFile
+	if loadJSON(filepath.Join(filepath.Dir(specDir), "known-findings.json"), &kf) == nil {
+		for _, k := range kf.Findings {
+			v.knownClause[k.Obligation] = true
+		}
 	}
 	var err error
 	v.prelude, err = loadPrelude(specDir)
@@ -381,10 +389,10 @@ func (v *verifier) structSort(n *types.Named, st *types.Struct, ts string) (*Sor
 		zeros = append(zeros, zeroOf(fs))
 	}
 	if len(fds) == 0 {
-		v.structDecls = append(v.structDecls, fmt.Sprintf("(declare-datatypes ((%s 0)) (((mk_%s))))", name, name))
+		v.opaqueDecls = append(v.opaqueDecls, fmt.Sprintf("(declare-datatypes ((%s 0)) (((mk_%s))))", name, name))
 		s.Zero = "mk_" + name
 	} else {
-		v.structDecls = append(v.structDecls, fmt.Sprintf("(declare-datatypes ((%s 0)) (((mk_%s %s))))", name, name, strings.Join(fds, " ")))
+		v.opaqueDecls = append(v.opaqueDecls, fmt.Sprintf("(declare-datatypes ((%s 0)) (((mk_%s %s))))", name, name, strings.Join(fds, " ")))
 		s.Zero = "(mk_" + name + " " + strings.Join(zeros, " ") + ")"
 	}
 	return s, nil
@@ -430,4 +438,56 @@ func relPath(p string) string {
 		return r
 	}
 	return p
+}
+
+// nonNilErrGlobal: the global is stored to only in the package initialiser, and only with the result
+// of fmt.Errorf / errors.New (which never return nil).
+func (v *verifier) nonNilErrGlobal(g *ssa.Global) bool {
+	key := "nonnil|" + g.Pkg.Pkg.Path() + "." + g.Name()
+	if s, ok := v.sortCache[key]; ok {
+		return s != nil
+	}
+	ok := false
+	bad := false
+	var scan func(fn *ssa.Function)
+	scan = func(fn *ssa.Function) {
+		for _, b := range fn.Blocks {
+			for _, in := range b.Instrs {
+				st, isStore := in.(*ssa.Store)
+				if !isStore || st.Addr != ssa.Value(g) {
+					continue
+				}
+				if fn.Name() != "init" {
+					bad = true
+					continue
+				}
+				if call, isCall := st.Val.(*ssa.Call); isCall {
+					if callee := call.Common().StaticCallee(); callee != nil && (callee.String() == "fmt.Errorf" || callee.String() == "errors.New") {
+						ok = true
+						continue
+					}
+				}
+				bad = true
+			}
+		}
+		for _, an := range fn.AnonFuncs {
+			scan(an)
+		}
+	}
+	for _, m := range g.Pkg.Members {
+		if fn, isFn := m.(*ssa.Function); isFn {
+			scan(fn)
+		}
+	}
+	for _, fn := range v.funcs {
+		if fn.Pkg == g.Pkg {
+			scan(fn)
+		}
+	}
+	if ok && !bad {
+		v.sortCache[key] = SErr
+		return true
+	}
+	v.sortCache[key] = nil
+	return false
 }
